@@ -2364,6 +2364,8 @@ def preprocess_file(
 
         if defs is None:
             defs = {}
+        # A comment may follow the condition
+        text = re.sub(r"/\*.*?\*/|//.*$", " ", text)
         out_line = replace_defined(text)
         out_line = replace_vars(out_line)
         try:
@@ -2429,6 +2431,11 @@ def preprocess_file(
 
         return substitute
 
+    def first_word(text: str) -> str:
+        """The macro name of #ifdef/#ifndef: a comment may follow it"""
+        word = FRegex.WORD.match(text.strip())
+        return word.group(0) if word else text.strip()
+
     def append_multiline_macro(def_value: str | tuple, line: str):
         if isinstance(def_value, tuple):
             def_args, def_value = def_value
@@ -2479,11 +2486,11 @@ def preprocess_file(
                 if_start = True
             elif match.group(1).lower() == "ifdef":
                 if_start = True
-                def_name = line[match.end(0) :].strip()
+                def_name = first_word(line[match.end(0) :])
                 is_path = def_name in defs_tmp
             elif match.group(1).lower() == "ifndef":
                 if_start = True
-                def_name = line[match.end(0) :].strip()
+                def_name = first_word(line[match.end(0) :])
                 is_path = not (def_name in defs_tmp)
             if if_start:
                 if is_path:
